@@ -36,8 +36,9 @@ const (
 )
 
 type harness struct {
-	run   *hx.Run
-	model *hx.Model
+	run      *hx.Run
+	model    *hx.Model
+	reported map[string]int // violations already shrunk and written, per signature and finding key
 }
 
 type verdict struct {
@@ -182,6 +183,13 @@ func (h *harness) record(c *Case, v *verdict, n int) {
 func (h *harness) report(c Case, v *verdict) {
 	sig := v.signature()
 	cur, curV := c, v
+	if k := sig + "|" + classify(&c, v); h.reported[k] >= 3 {
+		// hx keeps three replays per (kind, finding key); further hits are only counted
+		h.run.Violate(v.kind(), v.what(), classify(&c, v), v.kind() == "correspondence", nil)
+		return
+	} else {
+		h.reported[k]++
+	}
 	try := func(cand Case) bool {
 		v2, err := h.evalOne(&cand)
 		if err != nil || v2.signature() != sig {
@@ -394,6 +402,8 @@ func (h *harness) runBatch(w World, schema *jsonapi.Schema, reqs []ReqSpec, sour
 	}
 }
 
+var gridMethods = []string{"GET", "POST", "PATCH", "DELETE", "PUT", "get"}
+
 func queryAllSupported(q *ReqSpec) bool {
 	for _, k := range q.queryKeys() {
 		if !refSupportedKey(k) {
@@ -432,7 +442,7 @@ func gridRequests(r *hx.Rand, w *World) (routes []ReqSpec, nego []ReqSpec) {
 		}
 		paths = append(paths, []string{t.Name, ids[0], "x", names[len(names)-1]}, []string{t.Name, ids[0], "relationships", names[len(names)-1], "x"})
 		for _, p := range paths {
-			for _, m := range methods {
+			for _, m := range gridMethods {
 				q := ReqSpec{Method: m, Path: "/" + strings.Join(p, "/"), Accept: plain.lines, AcceptKind: plain.kind, QueryKind: "none"}
 				q.Body, q.Label = bodyFor(r, w, p, pickFam(r))
 				routes = append(routes, q)
@@ -444,10 +454,10 @@ func gridRequests(r *hx.Rand, w *World) (routes []ReqSpec, nego []ReqSpec) {
 		ReqSpec{Method: "GET", Path: "/ghost/1", Accept: plain.lines, AcceptKind: plain.kind, QueryKind: "none"})
 	// negotiation × parameters on one route that otherwise succeeds or fails in a route-specific way
 	for k := 0; k < 2; k++ {
-		base := genRequest(r, w)
+		base := intentRequest(r, w)
 		for _, av := range acceptVariants {
 			for _, qv := range queryVariants {
-				if av.kind != "plain" && qv.kind != "none" && !r.Chance(1, 4) {
+				if av.kind != "plain" && qv.kind != "none" && !r.Chance(1, 12) {
 					continue
 				}
 				q := base
@@ -461,7 +471,7 @@ func gridRequests(r *hx.Rand, w *World) (routes []ReqSpec, nego []ReqSpec) {
 
 func main() {
 	run := hx.Init("C19")
-	h := &harness{run: run}
+	h := &harness{run: run, reported: map[string]int{}}
 	if run.ModelPath != "" {
 		m, err := hx.StartModel(run.ModelPath)
 		if err != nil {
@@ -519,7 +529,7 @@ func main() {
 	}
 
 	worlds := run.Scale(40, 1200)
-	randomPer := run.Scale(500, 900)
+	randomPer := run.Scale(2500, 3000)
 	for wi := 0; wi < worlds; wi++ {
 		r := run.Rand.Fork()
 		w := genWorld(r)
